@@ -60,6 +60,16 @@ def expectedQ (tol eps d : Q) : Option Int :=
   else if d.num == 0 && Q.le eps tol then some 0
   else none
 
+/-- orientation only: (expected verdict if decidable, exact sign) -/
+def orientExpect (d : Nat) (s : List DPt) : Option Int × Int :=
+  let emin := minExp s
+  let od := orientDet (scalePts s emin)
+  let oRows := qRows (s.map (fun p => p ++ [⟨1, 0⟩]))
+  let oTol := adaptiveTol oRows true
+  let oEps := luBound oRows
+  let oReal := Q.scale2 (Q.ofInt od) (emin * d)
+  (expectedQ oTol oEps oReal, sgn od)
+
 structure PredExpect where
   orient : Option Int            -- expected `orientation` result
   insphere : Option (Option Int) -- `some none` = expected Err (degenerate simplex); `none` = no claim
